@@ -35,6 +35,9 @@ type codeCfg struct {
 	mapVar                string
 	subject               string // switch subject relative to the receiver: "" (the receiver) or ".Value"
 	prologue              []string
+	// optGuard: a length guard that may precede the prologue (fixes/C07-keycredential-fixed-width-readers.diff:
+	// a short buffer is not read; the naming switch that follows is unchanged).  Both shapes are accepted.
+	optGuard string
 }
 
 var c19CodeTables = []codeCfg{
@@ -53,7 +56,8 @@ var c19CodeTables = []codeCfg{
 	{id: "KeyCredVersion", dir: "windows/keycredential/key", file: "KeyCredentialVersion.go", goType: "KeyCredentialVersion", constType: "uint32", shape: "switch", fn: "String", subject: ".Value"},
 	{id: "KeySource", dir: "windows/keycredential/key", file: "KeySource.go", goType: "KeySource", constType: "KeySource", shape: "switch", fn: "String", subject: ""},
 	{id: "KeyStrength", dir: "windows/keycredential/key", file: "KeyStrength.go", goType: "KeyStrength", constType: "uint32", shape: "assign", fn: "FromBytes", subject: ".Value",
-		prologue: []string{"$r.RawBytes = value[:4]", "$r.RawBytesSize = 4", "$r.Value = binary.LittleEndian.Uint32(value[:4])"}},
+		prologue: []string{"$r.RawBytes = value[:4]", "$r.RawBytesSize = 4", "$r.Value = binary.LittleEndian.Uint32(value[:4])"},
+		optGuard: "if len(value) < 4 {\n\t*$r = KeyStrength{}\n\treturn\n}"},
 	{id: "KeyUsage", dir: "windows/keycredential/key", file: "KeyUsage.go", goType: "KeyUsage", constType: "uint8", shape: "switch", fn: "String", subject: ".Value"},
 }
 
@@ -384,7 +388,16 @@ func c19SwitchFunc(p *c19pkg, fd *ast.FuncDecl, recv string, cfg codeCfg, t *C19
 	subject := recv + cfg.subject
 	assign := cfg.shape == "assign"
 	b := fd.Body.List
-	// prologue (assign shape only)
+	// prologue (assign shape only), possibly behind the known length guard
+	if cfg.optGuard != "" && len(b) > 0 {
+		if _, isIf := b[0].(*ast.IfStmt); isIf {
+			squash := func(s string) string { return strings.Join(strings.Fields(s), " ") } // comments inside leave blank lines
+			if got := p.src(b[0]); squash(got) != squash(strings.ReplaceAll(cfg.optGuard, "$r", recv)) {
+				return p.errf(b[0], "%s: leading guard not understood: %q", cfg.fn, got)
+			}
+			b = b[1:]
+		}
+	}
 	for _, want := range cfg.prologue {
 		want = strings.ReplaceAll(want, "$r", recv)
 		if len(b) == 0 || p.src(b[0]) != want {
